@@ -179,3 +179,29 @@ Example ex_self_tolerance_fixed :
                 | OutTrain res => 10 + selres_code res
                 | _ => -1 end) tr = [-1; 2; 10; 0].
 Proof. vm_compute. reflexivity. Qed.
+
+(* ---------------------------------------------------------------------- *)
+(* the display: a saturated window (size 2).  Observation 0 is good, 1 is bad;
+   the fingerprint oracle says a window containing a bad observation is slow.
+   train on [0;0]; one bad observation + flag -> CONFIRMED; two good ones push
+   it out -> NONE although the observation COUNT never changed. *)
+Definition pf_demo (w : list Z) (_ : list bool) : peptide :=
+  if zmem 1 w then mkPep (30#1) 0 (9#1) 0 (3#4) 0 0 1 1 None else mkPep (30#1) 0 (1#1) 0 (3#4) 0 0 1 1 None.
+
+Example ex_current_window :
+  let hist := [ARecord 0; ARecord 0; ATrain; ARecord 1; ASys (OFlag true); AInspect; ARecord 0; ARecord 0; AInspect] in
+  map (fun x => match x with
+                | (d, _, AInspect, OutResp r _) => (d_obs d, level_code (r_level r))
+                | (d, _, _, _) => (d_obs d, -1) end)
+      (api_run pf_demo id_rnd false g_norules (mkDisp 2 2 [] []) (mkSys None [] (Some (mkRec 0 0))) hist)
+  = [([], -1); ([0], -1); ([0; 0], -1); ([0; 0], -1); ([0; 1], -1); ([0; 1], 2);
+     ([0; 1], -1); ([1; 0], -1); ([0; 0], 0)] /\
+  lastn 2 (recorded [] (firstn 8 hist)) = [0; 0].
+Proof. vm_compute. auto. Qed.
+
+(* a lowered response is remembered as lowered and recalled unchanged: CONFIRMED / monitor twice *)
+Example ex_recall_not_lowered_again :
+  let tr := run id_rnd false g0 s_flagged [OInspect (Some slow); OInspect (Some slow)] in
+  map (fun x => match snd x with OutResp r _ => (level_code (r_level r), action_code (r_action r), r_viol r) | _ => (-1, -1, []) end) tr
+  = [(2, 1, [2]); (2, 1, [9])] /\ mem_ok (s_mem s_flagged).
+Proof. split; [vm_compute; reflexivity|constructor]. Qed.
